@@ -96,11 +96,11 @@ structure VCtx where
   asrep : Bool
   woOff : Bool
 
-/-- visitJSONObject, first loop: some declared write-only property carries a non-nil value -/
+/-- visitJSONObject, first loop: some declared write-only property is present in the value
+(`if _, present := value[propName]; present` — key presence since the fix of finding F-C08-4; `null` counts) -/
 def woViol : Props → KVs → Bool
   | .nil, _ => false
-  | .cons k p r, kvs =>
-    (p.core.writeOnly && (match kvs.get k with | some v => !v.isNull | none => false)) || woViol r kvs
+  | .cons k p r, kvs => (p.core.writeOnly && (kvs.get k).isSome) || woViol r kvs
 
 def isWO : Option Sch → Bool | some p => p.core.writeOnly | none => false
 
@@ -431,29 +431,6 @@ def acceptB (canon : String → String) (o : Opts) (i : Input) : Bool :=
 
 /-! ### Exclusion predicates (classes in which the code deviates from the property) -/
 
-/-- a write-only property of a visited object carries `null` -/
-def woNullHere : Props → KVs → Bool
-  | .nil, _ => false
-  | .cons k p r, kvs =>
-    (p.core.writeOnly && (match kvs.get k with | some v => v.isNull | none => false)) || woNullHere r kvs
-
-mutual
-def woNullIn : J → Sch → Bool
-  | .arr xs, s => (match s.items with | .none => false | .some it => woNullItems xs it)
-  | .obj kvs, s => woNullHere s.props kvs || woNullKVs kvs s
-  | _, _ => false
-def woNullItems : JL → Sch → Bool
-  | .nil, _ => false
-  | .cons x r, it => woNullIn x it || woNullItems r it
-def woNullKVs : KVs → Sch → Bool
-  | .nil, _ => false
-  | .cons k v r, s =>
-    (match s.props.lookup k with
-     | some p => woNullIn v p
-     | none => (match s.addl with | .some a => woNullIn v a | .none => false))
-    || woNullKVs r s
-end
-
 def declaresWO : Props → Bool
   | .nil => false
   | .cons _ p r => p.core.writeOnly || declaresWO r
@@ -496,17 +473,7 @@ def HdrNotAsResponse (canon : String → String) (i : Input) : Bool := anyHdr i 
 /-- F-C08-3: empty responses map under IncludeResponseStatus -/
 def EmptyMapStrict (o : Opts) (i : Input) : Bool := i.responses.isEmpty && o.strict
 
-/-- F-C08-4: a write-only property present with the value `null` in the body (write-only checks on) -/
-def WriteOnlyNull (o : Opts) (i : Input) : Bool :=
-  !o.woOff &&
-  match selected i.responses i.status with
-  | none => false
-  | some r =>
-    match firstSome r.content (mimeCandidates (ctOf i)) with
-    | some mt => (match mt.schema, i.bodyDec with | some s, .val v => woNullIn v s | _, _ => false)
-    | none => false
-
 def Excluded (canon : String → String) (o : Opts) (i : Input) : Bool :=
-  HdrDecodedNil canon i || HdrNotAsResponse canon i || EmptyMapStrict o i || WriteOnlyNull o i
+  HdrDecodedNil canon i || HdrNotAsResponse canon i || EmptyMapStrict o i
 
 end KinModel.Response
